@@ -17,7 +17,8 @@ for name in sorted(os.listdir(root)):
     rows.append((name,m,mx))
 out=["# Seeded changes and which checks catch them","",
 "Each row is one change produced by a fresh sub-agent (only the property text and a scratch worktree), confirmed by `tools/try_patch.sh` and never committed to /repo.",
-"Matrix cells: quick tier of every check against the changed tree (`tools/matrix.sh`): **X** = exits 1 with a VIOLATION, . = exits 0, ! = exit 2 (harness trouble), blank = not run.",""]
+"Matrix cells: quick tier of a check against the changed tree (`tools/matrix.sh`): **X** = exits 1 with a VIOLATION, . = exits 0, ! = exit 2 (harness trouble), blank = not run.",
+"Rows with all nine cells filled come from the full cross-matrix (every check against every change) run at /verif commit 35d7a06 (waves 1-5); rows with only some cells filled were re-confirmed later (`MATRIX_ONLY_CAUGHT=1`: only the checks named under caught_now_by) at commit a09ebf0; rows without cells (wave 9, and any row the last re-confirmation did not reach) were confirmed with `tools/try_patch.sh` as recorded in their meta.json.",""]
 out.append("| change | aimed at | "+" | ".join(ids)+" | what it is |")
 out.append("|---|---|"+"|".join(["---"]*len(ids))+"|---|")
 caught=0; total=0
